@@ -50,6 +50,7 @@ package spec
 
 //@ func (Timestamp).Time
 //@   property C12, C06
+//@   requires t <= 9223372036854775807
 //@   ensures nanos: unixNano(result) == t * 1000000
 //@   assigns nothing
 
